@@ -23,7 +23,8 @@ RULE = ("1-3 model descriptions, each with 0-4 systems (unique ids, arbitrary pr
         "saw the decoded model; the returned model holds exactly the listed systems (attributes, registry, execution order of "
         "the first timestep) and agents (ids in creation order). Non-trivial: >= 2 systems and >= 2 groups (one of size >= 2) "
         "with a mix of present and absent hooks. Distinct = digest of the case."
-        " Added in rounds 19-24: descriptions of a finished run (Model.decode returns a model that is already complete).")
+        " Added in rounds 19-24: descriptions of a finished run (Model.decode returns a model that is already complete)."
+        " Round 25: before half of the JSON decodes the caller loads the file through JsonDecoder.open_file and edits what it was handed.")
 ASSUMPTIONS = ["system ids are unique within a description and agent-group prefixes are distinct (otherwise the documented "
                "duplicate errors apply, which is C01/C04's domain)"]
 
@@ -250,6 +251,15 @@ def run_case(case):
                 decoder = JsonDecoder() if via_json else DictDecoder(table)
                 NESTED.clear()
                 NESTED.update({"decoder": decoder, "name": os.path.join(tmp, "inner.json") if via_json else "inner", "results": []})
+                if via_json and (n + len(order)) % 2:
+                    # the caller looks at the file first (the decoder's own open_file) and edits what it was handed: the file is unchanged
+                    peek = JsonDecoder().open_file(os.path.join(tmp, f"desc{di}.json"))
+                    if isinstance(peek, dict):
+                        peek["agents"] = []
+                        peek.pop("systems", None)
+                        for k_ in [k_ for k_ in peek if k_.endswith("_decode")]:
+                            del peek[k_]
+                    labels.add("file-inspected-and-copy-edited-first")
                 try:
                     if via_json:
                         model = decoder.decode(os.path.join(tmp, f"desc{di}.json"))
